@@ -255,12 +255,26 @@ class Analysis:
 
     def write(self, st, key, val):
         st.cells[key] = val
-        # array elements / pointer aliases into the same array are forgotten
+        # array elements / pointer aliases into the same array are forgotten,
+        # unless the state proves that the two indices differ
         pre = key.split("[")[0] if "[" in key else st.alias.get(key)
         if pre:
+            idx = st.tags.get("idx", {})
+            mine = idx.get(key)
             for k in list(st.cells):
                 if k != key and (k.startswith(pre + "[") or st.alias.get(k) == pre):
+                    other = idx.get(k)
+                    if mine is not None and other is not None:
+                        d = lsub(mine, other)
+                        if is_const(d):
+                            if d.get(ONE, 0) != 0:
+                                continue
+                        elif st.entails_le(ladd(d, lconst(1))) or st.entails_le(ladd(lscale(d, -1), lconst(1))):
+                            continue
                     del st.cells[k]
+
+    def note_index(self, st, key, form):
+        st.tags.setdefault("idx", {})[key] = form
 
     def cellkey(self, f, e, st):
         e = ir.strip(e)
@@ -308,7 +322,9 @@ class Analysis:
             if len(vals) == 1:
                 if self.on_index is not None:
                     self.on_index(f, e, bk, vals[0][0], st)
-                return "%s[%s]" % (bk, lshow(vals[0][0]))
+                key = "%s[%s]" % (bk, lshow(vals[0][0]))
+                self.note_index(st, key, vals[0][0])
+                return key
             return "%s[?]" % bk
         return None
 
@@ -341,7 +357,9 @@ class Analysis:
         if isinstance(e, dict) and e.get("k") == "mem" and not is_const(off) or (isinstance(e, dict) and e.get("k") == "mem" and off):
             bk = self.cellkey(f, e, st)
             if bk:
-                return "%s[%s]" % (bk, lshow(off))
+                key = "%s[%s]" % (bk, lshow(off))
+                self.note_index(st, key, off)
+                return key
         return None
 
     # -- expressions: list of (linear form, state) --------------------------------
@@ -428,6 +446,26 @@ class Analysis:
                             out.append((lscale(a, b.get(ONE, 0)), s2))
                         else:
                             out.append((self.fresh(s2, "?", False), s2))
+                return out
+            if op in (">>", "<<", "/", "%", "&", "|") and not e.get("pd"):
+                # constant folding / multiplication by a power of two; anything else is unknown
+                out = []
+                for a, s1 in self.eval(f, e["l"], st):
+                    for b, s2 in self.eval(f, e["r"], s1):
+                        if is_const(a) and is_const(b) and a.get(ONE, 0).denominator == 1 and b.get(ONE, 0).denominator == 1:
+                            x, y = int(a.get(ONE, 0)), int(b.get(ONE, 0))
+                            try:
+                                v = {">>": lambda: x >> y, "<<": lambda: x << y, "/": lambda: int(x / y) if y else None,
+                                     "%": lambda: (x - y * int(x / y)) if y else None, "&": lambda: x & y, "|": lambda: x | y}[op]()
+                            except (ValueError, OverflowError):
+                                v = None
+                            if v is not None and (op not in (">>", "<<") or (x >= 0 and 0 <= y < 63)):
+                                out.append((lconst(v), s2))
+                                continue
+                        if op == "<<" and is_const(b) and 0 <= b.get(ONE, 0) < 63 and b.get(ONE, 0).denominator == 1:
+                            out.append((lscale(a, 2 ** int(b.get(ONE, 0))), s2))
+                            continue
+                        out.append((self.fresh(s2, "?", False), s2))
                 return out
             if op in ("+", "-") and e.get("pd"):
                 # pointer +/- offset, in elements
